@@ -47,6 +47,8 @@ type jop struct {
 	Owner *uint64    `json:"owner,omitempty"`
 	RType uint64     `json:"rtype,omitempty"`
 	UType uint64     `json:"utype,omitempty"`
+	Dup   int        `json:"dup,omitempty"`   // create_org/create_bucket: the id generator first repeats this many ids that are in use
+	Race  bool       `json:"race,omitempty"`  // delete_org: another client removes the first listed membership of the org between the listing and the clean-up loop
 	Quiet bool       `json:"quiet,omitempty"` // do not look at the store after this step (bulk phases)
 }
 
@@ -179,20 +181,65 @@ func errClass(err error) uint64 {
 const ghostBase = 1000 // canonical ids >= ghostBase never exist
 
 type world struct {
-	ctx      context.Context
-	kv       kv.Store
-	svc      *tenant.Service
-	toReal   map[uint64]platform.ID
-	toCan    map[platform.ID]uint64
-	next     uint64
-	orgs     []uint64 // canonical ids of all organizations ever created
-	bkts     []uint64
-	users    []uint64
-	lastUrms [][4]uint64
-	userBkts []uint64    // live buckets of user type
-	live     [3][]uint64 // canonical ids of the live orgs / buckets / users (from the last dump)
-	bad      []string
-	cleanup  func()
+	ctx            context.Context
+	kv             kv.Store
+	svc            *tenant.Service
+	toReal         map[uint64]platform.ID
+	toCan          map[platform.ID]uint64
+	next           uint64
+	orgs           []uint64 // canonical ids of all organizations ever created
+	bkts           []uint64
+	users          []uint64
+	lastUrms       [][4]uint64
+	userBkts       []uint64    // live buckets of user type
+	live           [3][]uint64 // canonical ids of the live orgs / buckets / users (from the last dump)
+	bad            []string
+	cleanup        func()
+	orgGen, bktGen *collGen
+}
+
+// racingURMs wraps the mapping service: when armed for a resource, the first listing of that
+// resource's mappings is followed (before the caller sees it) by "another client" deleting
+// the first listed mapping.  The end state must be the same as without the race.
+type racingURMs struct {
+	influxdb.UserResourceMappingService
+	armed platform.ID
+}
+
+func (r *racingURMs) FindUserResourceMappings(ctx context.Context, f influxdb.UserResourceMappingFilter, opt ...influxdb.FindOptions) ([]*influxdb.UserResourceMapping, int, error) {
+	ms, n, err := r.UserResourceMappingService.FindUserResourceMappings(ctx, f, opt...)
+	if err == nil && r.armed.Valid() && f.ResourceID == r.armed && len(ms) > 0 {
+		r.armed = 0
+		_ = r.UserResourceMappingService.DeleteUserResourceMapping(context.Background(), ms[0].ResourceID, ms[0].UserID)
+	}
+	return ms, n, err
+}
+
+// collGen: an incrementing id generator that can be told to draw ids that are already in
+// use first (the real generators are random: a collision is possible, and CreateOrg /
+// CreateBucket must then retry until the id is fresh).
+type collGen struct {
+	next    platform.ID
+	pending []platform.ID
+}
+
+func (g *collGen) ID() platform.ID {
+	if len(g.pending) > 0 {
+		id := g.pending[0]
+		g.pending = g.pending[1:]
+		return id
+	}
+	id := g.next
+	g.next++
+	return id
+}
+
+// inject: the next ids drawn are those of the n most recently created live records.
+func (w *world) inject(g *collGen, kind, n int) {
+	live := w.live[kind]
+	for i := 0; i < n && i < len(live); i++ {
+		g.pending = append(g.pending, w.real(live[len(live)-1-i]))
+	}
 }
 
 func newWorld(useBolt bool) *world {
@@ -218,14 +265,15 @@ func newWorld(useBolt bool) *world {
 		panic(err)
 	}
 	st := tenant.NewStore(s)
-	st.OrgIDGen = mock.NewIncrementingIDGenerator(0x0a00)
-	st.BucketIDGen = mock.NewIncrementingIDGenerator(0x0b00)
+	orgGen, bktGen := &collGen{next: 0x0a00}, &collGen{next: 0x0b00}
+	st.OrgIDGen = orgGen
+	st.BucketIDGen = bktGen
 	st.IDGen = mock.NewIncrementingIDGenerator(0x0c00)
 	svc := tenant.NewService(st)
 	ts := mock.NewTaskService()
 	ts.FindTasksFn = func(context.Context, taskmodel.TaskFilter) ([]*taskmodel.Task, int, error) { return nil, 0, nil }
 	svc.Apply(tenant.WithTaskService(ts))
-	return &world{ctx: ctx, kv: s, svc: svc, toReal: map[uint64]platform.ID{}, toCan: map[platform.ID]uint64{}, next: 1, cleanup: cleanup}
+	return &world{ctx: ctx, kv: s, svc: svc, toReal: map[uint64]platform.ID{}, toCan: map[platform.ID]uint64{}, next: 1, cleanup: cleanup, orgGen: orgGen, bktGen: bktGen}
 }
 
 func (w *world) real(c uint64) platform.ID {
@@ -533,6 +581,14 @@ func (w *world) observe(err error) jobs {
 
 func (w *world) apply(op jop) error {
 	ctx := w.ctx
+	defer func() { w.orgGen.pending, w.bktGen.pending = nil, nil }()
+	if op.Dup > 0 && op.Op == "create_org" {
+		w.inject(w.orgGen, 0, op.Dup)
+		w.inject(w.bktGen, 1, op.Dup)
+	}
+	if op.Dup > 0 && op.Op == "create_bucket" {
+		w.inject(w.bktGen, 1, op.Dup)
+	}
 	switch op.Op {
 	case "create_org":
 		if op.Owner != nil {
@@ -551,6 +607,11 @@ func (w *world) apply(op jop) error {
 		_, err := w.svc.UpdateOrganization(ctx, w.real(op.ID), upd)
 		return err
 	case "delete_org":
+		if op.Race {
+			real := w.svc.UserResourceMappingService
+			w.svc.UserResourceMappingService = &racingURMs{UserResourceMappingService: real, armed: w.real(op.ID)}
+			defer func() { w.svc.UserResourceMappingService = real }()
+		}
 		return w.svc.DeleteOrganization(ctx, w.real(op.ID))
 	case "create_bucket":
 		b := &influxdb.Bucket{OrgID: w.real(op.ID), Name: bktName(*op.Name)}
@@ -759,6 +820,9 @@ func run(w *vh.W, c *jcase, length int, gen func(*world) jop) {
 			c.Obs = append(c.Obs, wd.observe(err))
 		}
 		w.Count("op", op.Op)
+		if op.Dup > 0 {
+			w.Count("id_collision_injected", op.Op)
+		}
 		w.Count("err:"+op.Op, fmt.Sprint(c.Obs[len(c.Obs)-1].Err))
 	}
 	c.Ops = ops
@@ -845,7 +909,7 @@ func on(c, v uint64) *[2]uint64 { return &[2]uint64{c, v} }
 
 func main() {
 	w := vh.New("C30", "From Verif Require Import Base.Prelude Model.C30.\nOpen Scope N_scope.", "case", "check")
-	w.Rule = "histories (1-12 operations) of create/rename/describe/delete organization (3 names x {plain, blank-padded}, empty name; optional owner from the caller's context), create/rename/delete bucket (3 ordinary names, _tasks, _monitoring, another underscore name, a quoted name, the empty name; user or system type), create/rename/delete user (3 names), set password, add/remove user-resource mapping (on organizations, buckets, never-existing ids), through the real tenant.Service on inmem KV (hand-picked histories also, and 1 in 8 random ones instead, on a bolt KV store in a temporary file); targets are drawn from the ids created so far (live or already deleted) and never-existing ids; hand-picked histories first, then one LARGE-organization history (99 user buckets created with short names whose byte order differs from creation order, one renamed, one deleted, then DeleteOrganization, a second organization untouched) and 1 in 60 random ones like it (97-130 user buckets left, 0-3 renamed, 0-3 deleted; the bulk steps are not observed, the step before the delete and everything after it is); n>=5000 (thorough) adds ALL 10^4 histories of length 4 over 10 symbolic operations (create org plain/padded, rename/delete the first org, create/rename/delete the first user bucket, create/delete the first user, map the first user to the first bucket or org), every prefix observed. After every operation: error class, dump of the 9 KV buckets, FindOrganization/FindBucketByName/FindUser lookups, FindBuckets(org, explicit large limit) for the two newest organizations. Non-trivial: some operation reports a conflict or a rename/delete/unmapping succeeds. Distinct: distinct Gallina terms."
+	w.Rule = "histories (1-12 operations) of create/rename/describe/delete organization (3 names x {plain, blank-padded}, empty name; optional owner from the caller's context), create/rename/delete bucket (3 ordinary names, _tasks, _monitoring, another underscore name, a quoted name, the empty name; user or system type), create/rename/delete user (3 names), set password, add/remove user-resource mapping (on organizations, buckets, never-existing ids), through the real tenant.Service on inmem KV (hand-picked histories also, and 1 in 8 random ones instead, on a bolt KV store in a temporary file); targets are drawn from the ids created so far (live or already deleted) and never-existing ids; hand-picked histories first (one with injected id collisions: for 1 in 4 organization/bucket creations, hand-picked and random, the id generator first repeats 1-2 ids that are in use, so the create has to retry; one with a membership of the organization removed by another client between DeleteOrganization's listing and its clean-up loop, as 1 in 3 random organization deletes), then one LARGE-organization history (99 user buckets created with short names whose byte order differs from creation order, one renamed, one deleted, then DeleteOrganization, a second organization untouched) and 1 in 60 random ones like it (97-130 user buckets left, 0-3 renamed, 0-3 deleted; the bulk steps are not observed, the step before the delete and everything after it is); n>=5000 (thorough) adds ALL 10^4 histories of length 4 over 10 symbolic operations (create org plain/padded, rename/delete the first org, create/rename/delete the first user bucket, create/delete the first user, map the first user to the first bucket or org), every prefix observed. After every operation: error class, dump of the 9 KV buckets, FindOrganization/FindBucketByName/FindUser lookups, FindBuckets(org, explicit large limit) for the two newest organizations. Non-trivial: some operation reports a conflict or a rename/delete/unmapping succeeds. Distinct: distinct Gallina terms."
 	var rc jcase
 	if w.ReplayCase(&rc) {
 		run(w, &rc, 0, nil)
@@ -866,6 +930,10 @@ func main() {
 		// organization delete cascade: buckets, mappings on the org and on its buckets
 		{{Op: "create_user", Name: up(1)}, {Op: "create_org", OName: on(1, 0), Owner: up(1)}, {Op: "create_bucket", ID: 2, Name: up(5)}, {Op: "add_urm", ID: 5, User: 1, RType: 1, UType: 1}, {Op: "add_urm", ID: 3, User: 1, RType: 1}, {Op: "create_org", OName: on(2, 0)}, {Op: "add_urm", ID: 6, User: 1}, {Op: "delete_org", ID: 2}, {Op: "create_org", OName: on(1, 0)}, {Op: "delete_org", ID: 2}},
 		{{Op: "create_org", OName: on(1, 0), Owner: up(1000)}, {Op: "create_user", Name: up(1)}, {Op: "create_org", OName: on(1, 0), Owner: up(4)}, {Op: "create_org", OName: on(2, 0), Owner: up(4)}, {Op: "delete_org", ID: 1}},
+		// id collisions: the generator repeats ids in use before a fresh one (create must retry)
+		{{Op: "create_org", OName: on(1, 0)}, {Op: "create_org", OName: on(2, 0), Dup: 1}, {Op: "create_bucket", ID: 1, Name: up(5)}, {Op: "create_bucket", ID: 4, Name: up(6), Dup: 1}, {Op: "create_bucket", ID: 1, Name: up(6), Dup: 2}, {Op: "create_bucket", ID: 4, Name: up(6), Dup: 2}, {Op: "create_org", OName: on(3, 0), Dup: 2}, {Op: "delete_bucket", ID: 7}, {Op: "create_bucket", ID: 1, Name: up(5), Dup: 1}},
+		// a member of the organization is removed by another client while DeleteOrganization cleans up
+		{{Op: "create_user", Name: up(1)}, {Op: "create_user", Name: up(2)}, {Op: "create_user", Name: up(3)}, {Op: "create_org", OName: on(1, 0), Owner: up(1)}, {Op: "add_urm", ID: 4, User: 2, UType: 1}, {Op: "add_urm", ID: 4, User: 3, UType: 1}, {Op: "create_org", OName: on(2, 0), Owner: up(2)}, {Op: "delete_org", ID: 4, Race: true}, {Op: "delete_org", ID: 7, Race: true}},
 		// users: renames, delete with password and mappings
 		{{Op: "create_user", Name: up(1)}, {Op: "create_user", Name: up(2)}, {Op: "create_user", Name: up(1)}, {Op: "update_user", ID: 2, Name: up(1)}, {Op: "update_user", ID: 2, Name: up(2)}, {Op: "update_user", ID: 2, Name: up(3)}, {Op: "create_user", Name: up(2)}, {Op: "update_user", ID: 1}, {Op: "delete_user", ID: 1}, {Op: "create_user", Name: up(1)}, {Op: "delete_user", ID: 1}},
 		{{Op: "create_user", Name: up(1)}, {Op: "set_password", ID: 1}, {Op: "create_org", OName: on(1, 0)}, {Op: "add_urm", ID: 2, User: 1}, {Op: "add_urm", ID: 2, User: 1}, {Op: "add_urm", ID: 1001, User: 1, RType: 1}, {Op: "add_urm", ID: 2, User: 1002}, {Op: "create_user", Name: up(2)}, {Op: "add_urm", ID: 2, User: 5, UType: 1}, {Op: "delete_user", ID: 1}, {Op: "set_password", ID: 1}, {Op: "del_urm", ID: 2, User: 1}},
@@ -952,6 +1020,9 @@ func main() {
 				if len(wd.orgs) >= 4 {
 					continue
 				}
+				if r.IntN(4) == 0 {
+					o.Dup = 1 + r.IntN(2)
+				}
 				return o
 			case k < 22:
 				o := jop{Op: "update_org", ID: pickw(wd, []int{0}, 14)}
@@ -960,9 +1031,13 @@ func main() {
 				}
 				return o
 			case k < 30:
-				return jop{Op: "delete_org", ID: pickw(wd, []int{0}, 14)}
+				return jop{Op: "delete_org", ID: pickw(wd, []int{0}, 14), Race: r.IntN(3) == 0}
 			case k < 44:
-				return jop{Op: "create_bucket", ID: pickw(wd, []int{0}, 14), Name: bname(), Sys: r.IntN(10) == 0}
+				o := jop{Op: "create_bucket", ID: pickw(wd, []int{0}, 14), Name: bname(), Sys: r.IntN(10) == 0}
+				if r.IntN(4) == 0 {
+					o.Dup = 1 + r.IntN(2)
+				}
+				return o
 			case k < 56:
 				o := jop{Op: "update_bucket", ID: pickw(wd, []int{1}, 14)}
 				if r.IntN(6) != 0 {
